@@ -10,12 +10,14 @@ import (
 	"os"
 	"os/exec"
 	"path/filepath"
+	"runtime/debug"
 	"strconv"
 	"strings"
 	"time"
 
 	bolt "go.etcd.io/bbolt"
 	"go.etcd.io/bbolt/zverif/apix"
+	"go.etcd.io/bbolt/zverif/boltfmt"
 	"go.etcd.io/bbolt/zverif/evid"
 	"go.etcd.io/bbolt/zverif/hx"
 	"go.etcd.io/bbolt/zverif/mc"
@@ -508,6 +510,52 @@ func c17Work(job c17Job) c17Res {
 				return res
 			}
 		}
+	case "failopen":
+		// an Open that fails (damaged / too small / not a database) must not leave the file locked: the next Open of
+		// the repaired file in the same process succeeds at once. GC is off so that a finalizer cannot hide a leak.
+		old := debug.SetGCPercent(-1)
+		defer debug.SetGCPercent(old)
+		good := concSeed(1024, "array", 0)
+		bads := map[string][]byte{"too-small": good[:1500], "all-zero": make([]byte, len(good))}
+		both := append([]byte{}, good...)
+		both[16+20] ^= 0xFF
+		both[1024+16+20] ^= 0xFF
+		bads["both-metas-damaged"] = both
+		ver := append([]byte{}, good...)
+		for s := 0; s < 2; s++ {
+			m := boltfmt.ParseMeta(ver[s*1024:], s)
+			m.Version = 3
+			boltfmt.EncodeMeta(ver[s*1024:], m)
+		}
+		bads["version-mismatch"] = ver
+		for name, bad := range bads {
+			for _, ro := range []bool{false, true} {
+				for _, ro2 := range []bool{false, true} {
+					path := apix.TempPath(dir)
+					_ = os.WriteFile(path, bad, 0600)
+					res.Count++
+					db, err := bolt.Open(path, 0600, &bolt.Options{ReadOnly: ro, Timeout: time.Millisecond})
+					if err == nil {
+						db.Close()
+						res.Fail = fmt.Sprintf("Open of a %s file succeeded", name)
+						return res
+					}
+					// a second failing open, then the repaired file
+					if _, err2 := bolt.Open(path, 0600, &bolt.Options{ReadOnly: ro2, Timeout: time.Millisecond}); err2 == nil || apix.ErrName(err2) == "ErrTimeout" {
+						res.Fail = fmt.Sprintf("%s file: after a failed Open(readOnly=%v) a second Open(readOnly=%v) returned %v (a failed open left the file locked)", name, ro, ro2, err2)
+						return res
+					}
+					_ = os.WriteFile(path, good, 0600)
+					db, err = bolt.Open(path, 0600, &bolt.Options{Timeout: time.Millisecond})
+					if err != nil {
+						res.Fail = fmt.Sprintf("%s file: after failed opens (readOnly=%v, then %v) the repaired file cannot be opened read-write: %v (a failed open left the file locked)", name, ro, ro2, err)
+						return res
+					}
+					db.Close()
+					os.Remove(path)
+				}
+			}
+		}
 	case "cli":
 		sc := &hx.Scope{Seed: Seeds[job.Seed], Cfg: apix.Cfg{PageSize: job.PS, Freelist: "array"}}
 		data, err := hx.BuildSeedData(sc)
@@ -583,6 +631,7 @@ func C17(tier string) int {
 	}
 	add(c17Job{Part: "seq-local", N: nLocal}, false)
 	add(c17Job{Part: "seq-remote", N: nRemote}, false)
+	add(c17Job{Part: "failopen"}, false)
 	// every program of depthRO calls from the read-only alphabet, on each seed state
 	var progs [][]int
 	var gen func(p []int)
@@ -670,7 +719,7 @@ func C17(tier string) int {
 	cov := map[string]interface{}{
 		"states": total + lockExecs, "transitions": counts["seq-local"] + counts["seq-remote"] + counts["ro"] + counts["cli"] + counts["poke"], "traces_validated_against_impl": total,
 		"evaluations": total + lockExecs, "distinct_nontrivial": counts["seq-local-opens"] + counts["seq-remote-opens"] + faults,
-		"rule":    "(a) every sequence of at most " + strconv.Itoa(nLocal) + " events from {open read-write, open read-only, close} x 3 handles in one process and of at most " + strconv.Itoa(nRemote) + " events with each handle in its own helper process (1 ms lock timeout), each Open result compared with a lock table; plus every schedule (<= 2 preemptions, virtual time) of an Open without timeout racing the holder's Close; (b) every program of " + strconv.Itoa(depthRO) + " calls from the read-only alphabet " + strings.Join(roCalls, "/") + " on every seed state, with and without preloaded freelist, and every CLI inspection command: write attempts must return ErrDatabaseReadOnly / ErrTxNotWritable, the I/O hook must see no write or truncate, length and SHA-256 stay the same; (c) with the real PROT_READ mapping: a store to the first and last byte of every key/value slice handed out by a read transaction (Cursor, ForEach, Get, nested and inline buckets) must fault or hit a private copy; file and content unchanged",
+		"rule":    "(a) every sequence of at most " + strconv.Itoa(nLocal) + " events from {open read-write, open read-only, close} x 3 handles in one process and of at most " + strconv.Itoa(nRemote) + " events with each handle in its own helper process (1 ms lock timeout), each Open result compared with a lock table; plus every schedule (<= 2 preemptions, virtual time) of an Open without timeout racing the holder's Close; plus failing opens (too small, all-zero, both metas damaged, wrong version; read-write/read-only in every pairing) after which the repaired file must open at once (a failed open must not keep the lock); (b) every program of " + strconv.Itoa(depthRO) + " calls from the read-only alphabet " + strings.Join(roCalls, "/") + " on every seed state, with and without preloaded freelist, and every CLI inspection command: write attempts must return ErrDatabaseReadOnly / ErrTxNotWritable, the I/O hook must see no write or truncate, length and SHA-256 stay the same; (c) with the real PROT_READ mapping: a store to the first and last byte of every key/value slice handed out by a read transaction (Cursor, ForEach, Get, nested and inline buckets) must fault or hit a private copy; file and content unchanged",
 		"samples": []string{"h0.rw, h1.ro (ErrTimeout), h0.close, h1.ro, h2.rw (ErrTimeout)", "read-only: update, view-put, check", "poke: seed nested, page size 4096"},
 		"counts":  counts, "stores_that_faulted": faults, "stores_that_hit_a_private_copy": private, "blocking_open_schedules": lockExecs,
 		"exhaustive": len(errs) == 0, "harness_errors": errs,
